@@ -11,6 +11,7 @@ package scen
 // exactly the projection of that validated baseline.
 
 import (
+	"bytes"
 	"encoding/binary"
 	"encoding/hex"
 	"encoding/json"
@@ -1592,11 +1593,15 @@ func c10RunConfig(c *Ctx, g *c10Cfg, nLists int) {
 			}
 		}
 	}
+	var pipeQs []string
 	if len(adv["local"]) > 0 && len(adv["peers"]) > 0 {
 		rng := rand.New(rand.NewSource(c.Rng(g.Idx).Int63() ^ 0x5eed))
 		for li := 0; li < nLists; li++ {
 			table, sels := c10GenSelectors(rng, li, adv, g.DSE)
 			shape := model.ListShape(sels)
+			if q := model.SelectCQL(sels, table); !strings.Contains(strings.ToLower(q), "now(") && len(pipeQs) < 16 {
+				pipeQs = append(pipeQs, q)
+			}
 			c.Step("cfg %d list %d %s", g.Idx, li, model.SelectCQL(sels, table))
 			r.Obs("selector_lists", 1)
 			for _, s := range sels {
@@ -1613,6 +1618,12 @@ func c10RunConfig(c *Ctx, g *c10Cfg, nLists int) {
 				r.Sample(map[string]interface{}{"config": g, "query": model.SelectCQL(sels, table), "table_rows": view.canon[table]})
 			}
 		}
+	}
+	// the same reads pipelined: a driver's control connection asks for system.local and system.peers at once. Every answer
+	// must be, byte for byte, the answer the same text got when it was sent alone on this connection.
+	if len(pipeQs) >= 2 {
+		c.Step("cfg %d pipelined system reads (%d texts)", g.Idx, len(pipeQs))
+		c10Pipelined(x, k4.cl, append(pipeQs, "SELECT * FROM system.local", "SELECT * FROM system.peers", "SELECT count(*) FROM system.peers"))
 	}
 	closeBed(bed, k4, k3)
 
@@ -1849,7 +1860,7 @@ func runC10(c *Ctx) {
 	r.Assume("rack, cluster_name and schema_version are not fixed by the property: any non-empty text / any uuid; native_protocol_version only has to name the negotiated version")
 	r.Assume("names and the integer type of count(...)/now() result columns are not fixed by the property; an alias on a function result is an observation only")
 	r.Assume("peer lists with data centers for only SOME entries: per-instance model only (missing ones default to each instance's own data center, so instances legitimately differ)")
-	r.Require("configurations", "selector_lists", "cells_decoded", "query_results_checked", "prepare_execute_checked", "instances_compared", "restarts_compared", "now_cells_checked", "count_cells_checked", "no_rpc_address_reads")
+	r.Require("configurations", "selector_lists", "cells_decoded", "query_results_checked", "prepare_execute_checked", "instances_compared", "restarts_compared", "now_cells_checked", "count_cells_checked", "no_rpc_address_reads", "pipelined_system_reads")
 
 	nCfg := c.Pick(200, 60000)
 	nLists := 30
@@ -1964,4 +1975,65 @@ func c10NoRPCAddress(c *Ctx, idx int) {
 		cl.Close()
 	}
 	r.NonTrivial(fmt.Sprintf("no-rpc-address/%v", order))
+}
+
+// c10Pipelined: see the call site. Texts that are refused when sent alone are compared by their error reply as well.
+func c10Pipelined(x *c10Run, cl *rawcql.Client, qs []string) {
+	r := x.r
+	opts := &message.QueryOptions{Consistency: primitive.ConsistencyLevelOne}
+	base := map[string]*rawcql.Frame{}
+	for i, q := range qs {
+		f, err := cl.Call(int16(20000+i), &message.Query{Query: q, Options: opts}, 20*time.Second)
+		if err != nil || f == nil {
+			r.Inconc(fmt.Sprintf("cfg %d: no reply to %q (pipelined phase, baseline)", x.g.Idx, q))
+			return
+		}
+		base[q] = f
+	}
+	rng := rand.New(rand.NewSource(int64(x.g.Idx) + 77))
+	for round := 0; round < 4; round++ {
+		n := 40 + rng.Intn(60)
+		type sent struct {
+			q  string
+			ch chan *rawcql.Frame
+			st int16
+		}
+		var reqs []sent
+		for k := 0; k < n; k++ {
+			q := qs[rng.Intn(len(qs))]
+			st := int16(21000 + round*200 + k)
+			ch := cl.Expect(st)
+			if cl.Send(st, &message.Query{Query: q, Options: opts}) != nil {
+				break
+			}
+			reqs = append(reqs, sent{q, ch, st})
+		}
+		bad, none := 0, 0
+		var first string
+		for _, rq := range reqs {
+			f, err := cl.Wait(rq.ch, 20*time.Second)
+			r.Eval(1)
+			r.Obs("pipelined_system_reads", 1)
+			if err != nil || f == nil {
+				none++
+				continue
+			}
+			b := base[rq.q]
+			if f.OpCode != b.OpCode || f.Flags != b.Flags || !bytes.Equal(f.Body, b.Body) {
+				bad++
+				if first == "" {
+					first = fmt.Sprintf("%q on stream %d: opcode %#x body %d bytes (alone: opcode %#x body %d bytes, first difference at %d)", rq.q, rq.st, int(f.OpCode), len(f.Body), int(b.OpCode), len(b.Body), firstDiff(f.Body, b.Body))
+				}
+			}
+		}
+		if none > 0 {
+			x.violate("C10/pipelined/no-reply", fmt.Sprintf("%d of %d pipelined system reads on one connection were not answered", none, len(reqs)), nil)
+			return
+		}
+		if bad > 0 {
+			x.violate("C10/pipelined/answer-differs-from-the-answer-to-the-same-text-sent-alone", fmt.Sprintf("%d of %d system reads pipelined on one connection got an answer that differs from the answer the same text got when sent alone on that connection; e.g. %s", bad, len(reqs), first), nil)
+			return
+		}
+	}
+	r.NonTrivial(fmt.Sprintf("pipelined/%s/%d-texts", x.g.shape(), len(qs)))
 }
